@@ -224,8 +224,8 @@ def probe_bytrack(inp) -> ProbeResult:
 
 
 PARTS = [
-    Part("unique", unique_inputs(), probe_unique, quick=1500, thorough=40000),
-    Part("bytrack", bytrack_inputs(), probe_bytrack, quick=1000, thorough=30000),
+    Part("unique", unique_inputs(), probe_unique, quick=8000, thorough=80000),
+    Part("bytrack", bytrack_inputs(), probe_bytrack, quick=5000, thorough=60000),
 ]
 
 
